@@ -81,6 +81,10 @@ structure Cfg where
   mmrActive : Bool := true
   extMax : Nat := CkbVerif.Gen.Rules.EXTENSION_MAX_BYTES
   extMinRoot : Nat := CkbVerif.Gen.Rules.EXTENSION_MIN_ROOT_BYTES
+  /-- `chain_service.rs` after the repair of F13/F14: a hash whose stored ext says
+  `verified = Some(true)` is answered `Ok(false)` before anything else (no non-contextual check of
+  the accompanying body, no `insert_block`, no status change). `false` = the pipeline as it was. -/
+  redeliveryGuard : Bool := true
 deriving Repr
 
 /-- `finalization_delay_length` = farthest + 1 -/
@@ -422,11 +426,15 @@ inductive Res
   | rejected (e : Err)
 deriving DecidableEq, Repr
 
-/-- one block through `HeaderVerifier` and then the chain service (`blocking_process_block`) -/
+/-- one block through `HeaderVerifier` and then the chain service (`blocking_process_block`).
+Stored blocks are immutable in the model (`st'` keeps the first body stored under an id); the code
+before the repair overwrote the body rows of a re-delivered hash (F13) — that part of the old
+behaviour is not modelled, the marking of F14 is (`redeliveryGuard := false`). -/
 def submit (cfg : Cfg) (s : St) (now : Nat) (b : Blk) : St × Res :=
   match headerCheck cfg (headerCxOf cfg s.stored now b) b with
   | some e => (s, .rejected e)
   | none =>
+  if cfg.redeliveryGuard && s.verified.contains b.id then (s, .known) else
   match nonContextualCheck cfg b with
   | some e => ({ s with invalid := b.id :: s.invalid }, .rejected e)
   | none =>
